@@ -60,6 +60,11 @@ def parseKind (s : String) : Option Kind :=
   | "func" => some .func | "brace" => some .brace | "notfound" => some .notFound
   -- the other compound commands use the guard exactly like `{ }` (`FullCompoundCommand::execute`)
   | "forloop" | "whileloop" | "untilloop" | "ifcmd" | "casecmd" => some .brace
+  -- every non-special built-in type goes the same way through `execute_builtin`
+  | "elective" | "extension" | "substitutive" => some .regular
+  -- a substitutive built-in whose external counterpart is lost after the assignments: message while the
+  -- redirections are in effect, 127 — the same steps as a command that is not found
+  | "substlost" => some .notFound
   | "funcret" => some .funcRet | "assign" => some .assign | "ext" | "extp" => some .external
   | "execbad" => some .execBadOption
   | "empty" => some .empty | "exec" => some .exec | "paren" => some .paren
@@ -101,7 +106,8 @@ def showSnap (w : World) (t : FdTable) : String :=
     let d := ofdAt w e.ofd
     let f := fileAt w d.file
     let acc := if d.rd && d.wr then "b" else if d.rd then "r" else if d.wr then "w" else "n"
-    let off := if f.tainted then "T" else toString d.off
+    -- `lseek` on a terminal fails: no offset to report
+    let off := if f.tainted then "T" else if f.kind == .tty then "?" else toString d.off
     s!"{fd}:{fileName d.file}:{acc}:={lowestSharing t e.ofd}:@{off}:{if e.cloexec then "c" else "-"}"
   if es.isEmpty then "-" else ",".intercalate es
 
